@@ -49,6 +49,11 @@ type Case struct {
 	// registered and unregistered (the session's list of services is refreshed
 	// under their feet); it is never the one they ask for
 	Churn bool `json:"churn,omitempty"`
+	// Late: this many services are registered one right after the other while
+	// the goroutines are at work, after the session was created: the session
+	// hears of them through the directory's signals. Once they are registered,
+	// requests for them succeed too (the harness allows the news five seconds)
+	Late int `json:"late,omitempty"`
 }
 
 func genCase(t *rapid.T) Case {
@@ -67,6 +72,9 @@ func genCase(t *rapid.T) Case {
 	}
 	c.BigTag = rapid.SampledFrom([]int{0, 0, 2100, 5000, 70000}).Draw(t, "bigtag")
 	c.Churn = rapid.Bool().Draw(t, "churn")
+	if rapid.IntRange(0, 2).Draw(t, "late") == 0 {
+		c.Late = rapid.IntRange(1, 6).Draw(t, "nlate")
+	}
 	g := rapid.IntRange(2, maxG).Draw(t, "goroutines")
 	for i := 0; i < g; i++ {
 		n := rapid.IntRange(1, 4).Draw(t, "requests")
@@ -222,9 +230,21 @@ func checkCase(c Case) error {
 	} else {
 		close(churnDone)
 	}
+	lateDone := make(chan struct{})
+	go func() {
+		defer close(lateDone)
+		<-start
+		for k := 0; k < c.Late; k++ {
+			_, actor := probe.NewPong("late", journal)
+			if _, err := env.Server.NewService(fmt.Sprintf("Late%d", k), actor); err != nil {
+				firstErr.Store(vt.Violationf("C19:setup", "NewService(Late%d): %v", k, err))
+				return
+			}
+		}
+	}()
 	close(start)
 	done := make(chan struct{})
-	go func() { wg.Wait(); close(stopChurn); <-churnDone; close(done) }()
+	go func() { wg.Wait(); close(stopChurn); <-churnDone; <-lateDone; close(done) }()
 	select {
 	case <-done:
 	case <-time.After(bound):
@@ -232,6 +252,40 @@ func checkCase(c Case) error {
 	}
 	if e := firstErr.Load(); e != nil {
 		return e.(*vt.Violation)
+	}
+	// the services registered meanwhile are registered now: requests for them
+	// succeed, from several goroutines at once
+	if c.Late > 0 {
+		var lw sync.WaitGroup
+		for g := 0; g < 3; g++ {
+			lw.Add(1)
+			go func(g int) {
+				defer lw.Done()
+				for k := 0; k < c.Late; k++ {
+					name := fmt.Sprintf("Late%d", (k+g)%c.Late)
+					var px bus.Proxy
+					var err error
+					for deadline := time.Now().Add(5 * time.Second); ; time.Sleep(2 * time.Millisecond) {
+						if px, err = sess.Proxy(name, 1); err == nil || time.Now().After(deadline) {
+							break
+						}
+					}
+					if err != nil {
+						firstErr.Store(vt.Violationf("C19:registered-service-not-found", "%d services were registered one after the other while the session was in use; five seconds later Proxy(%q) still fails: %v", c.Late, name, err))
+						return
+					}
+					tag := fmt.Sprintf("late%dg%d", k, g)
+					if res, err := pong.MakePingPong(sess, px).Hello(tag); err != nil || res != "r:"+tag {
+						firstErr.Store(vt.Violationf("C19:proxy-broken", "proxy of %q answered (%q, %v) to %s", name, res, err, tag))
+						return
+					}
+				}
+			}(g)
+		}
+		lw.Wait()
+		if e := firstErr.Load(); e != nil {
+			return e.(*vt.Violation)
+		}
 	}
 	// quiescence: at most one live connection per endpoint
 	contended := false
@@ -251,6 +305,9 @@ func checkCase(c Case) error {
 	labels := []string{fmt.Sprintf("servers=%d", len(c.Servers)), "transport=" + c.Transport}
 	if c.Churn {
 		labels = append(labels, "service-list-refreshed-meanwhile")
+	}
+	if c.Late > 0 {
+		labels = append(labels, "services-registered-meanwhile")
 	}
 	if contended {
 		labels = append(labels, "concurrent-dial-of-one-endpoint")
